@@ -85,7 +85,7 @@ PROP = {'suites': ['c18'],
          'step_alias_copy_equiv covers the states they reach). FOUND by this suite and REPAIRED in /repo (D28, fix 284a382; signature registered-client:authorization_data_types:empty-list-is-absent-after-json): a client registered with `authorization_data_types: []` was refused every authorization detail under the '
          "repository's storage (isAuthDetailTypeAllowed: only a nil list meant 'not announced') and allowed every type under a JSON-copying storage (`omitempty` writes no member for the empty list, "
          'nil comes back); history corpus:authn:dcr/authorization_data_types stays as the regression (the clients registered '
-         'without the member, with [] and with ["payment"] now agree under both flavours). D27 (fix 6e63330) is the same shape on the pushed session: `authorization_details=[]` at /par was kept by the '
+         'without the member, with [] and with ["payment"] now agree under both flavours). Theorems about that shape (Proofs/C18Json.v; json_params / json_client = the omitempty round trip on the list-valued members the model has): pushed_session_is_json_fixed_point (every session /par saves, plain or through a request object, whatever the storage answers), pushed_merge_flavour_independent, raw_merge_flavour_dependent (the defect as found, with its witness), registered_detail_types_json_invariant. D27 (fix 6e63330) is the same shape on the pushed session: `authorization_details=[]` at /par was kept by the '
          'aliasing store and dropped by the copying one, so the outer parameter of the redeeming request was merged in or not; random histories push `[]` again. The same shape (nil and empty told apart in code, not in the omitempty JSON form) exists '
          'for other stored members and is NOT exercised: internal/token/make.go tests `grantInfo.ActiveAuthDetails != nil` and `grantInfo.ActiveResources != nil` on the stored grant, '
          'internal/authorize/validation.go `params.Resources == nil` / `params.AuthDetails == nil` on the parameters of a stored pushed session, goidc.Client.FetchPublicJWKS `c.PublicJWKS != nil`; '
